@@ -501,11 +501,10 @@ Definition k_edge_torn (lo : Z) (progs : list (list gop)) : bool :=
      existsb (fun op => match op with GCreateEdge _ _ => true | _ => false end) (nth i progs []) &&
      existsb (fun op => match op with GDeleteEdge e => lo <=? e | _ => false end) (nth j progs [])) (seq 0 n)) (seq 0 n).
 
-(** * Yield sites.  [xsite k jumped] is the name of the [verif::yield_point] site (commit 45dda10 of
-      /repo) at which the thread stands after step [k] when the step did not return
+(** * Yield sites.  [xsite k jumped] is the name of the [verif::yield_point] site (commits 45dda10,
+      3c01f2d, 34bf8a9 of /repo) at which the thread stands after step [k] when the step did not return
       ([jumped] = the target when the step left by a [Goto]).  The scheduler harness reports the site at
-      which each granted step ended; the check compares the two sequences.  The sites of
-      set_node_property and of the rotating log are those of proposed-hooks/C20-*.diff. *)
+      which each granted step ended; the check compares the two sequences.  *)
 Open Scope string_scope.
 Definition gsite (k : gk) (jumped : option nat) : string :=
   match k with
